@@ -429,6 +429,44 @@ fn catalogue() -> Vec<Prog> {
     ]
 }
 
+/// Systematic family: one operation X on a word (on a page that is already dirty, so that value
+/// dependent fast paths are taken) while another thread performs TWO further read-modify-writes on
+/// the same word - the shape a multi-step (load / compare-exchange / store) rewrite of X loses a
+/// foreign update in. Every interleaving is executed; the quiescent final read is part of the check.
+fn systematic() -> Vec<Prog> {
+    use Op::*;
+    let xs: Vec<(&str, Vec<Op>)> = vec![
+        ("reset_range", vec![SetBit(3), ResetRange(3, 1)]),
+        ("reset_bit", vec![SetBit(3), ResetBit(3)]),
+        ("set_bit-again", vec![SetBit(3), SetBit(3)]),
+        ("mark_range", vec![SetBit(3), MarkRange(2, 3)]),
+        ("mark_dirty", vec![SetBit(3), MarkDirty(3, 1)]),
+        ("harvest", vec![SetBit(3), Harvest]),
+        ("reset-all", vec![SetBit(3), Reset]),
+        ("reset_range-wide", vec![MarkRange(2, 3), ResetRange(1, 5)]),
+    ];
+    let foreign: Vec<(&str, Vec<Op>)> = vec![
+        ("two-marks", vec![MarkRange(5, 2)]),
+        ("mark-then-harvest", vec![SetBit(5), Harvest]),
+        ("harvest-then-mark", vec![Harvest, SetBit(5)]),
+        ("mark-then-unmark", vec![SetBit(5), ResetBit(5)]),
+        ("mark-same-page-twice", vec![SetBit(3), SetBit(3)]),
+    ];
+    let mut v = vec![];
+    for (xn, x) in &xs {
+        for (fnm, f) in &foreign {
+            let name: &'static str = Box::leak(format!("sys/{}-vs-{}", xn, fnm).into_boxed_str());
+            v.push(Prog { name, pages: 70, threads: vec![x.clone(), f.clone()] });
+        }
+    }
+    // three threads: X vs one marker and one harvester
+    for (xn, x) in xs.iter().take(4) {
+        let name: &'static str = Box::leak(format!("sys3/{}-vs-marker-vs-harvester", xn).into_boxed_str());
+        v.push(Prog { name, pages: 70, threads: vec![x.clone(), vec![MarkRange(5, 2)], vec![Harvest]] });
+    }
+    v
+}
+
 fn larger(r: &mut Rng) -> Prog {
     // 3 threads x up to 8 primitive steps on pages sharing one word / two words
     let pages = 130;
@@ -540,7 +578,8 @@ fn run_free(prog: &Prog) -> (Vec<Call>, Vec<u64>) {
 pub fn run(args: &Args) {
     out::set_quiet_cases(true);
     let mode = args.str("mode", "dfs");
-    let cat = catalogue();
+    let mut cat = catalogue();
+    cat.extend(systematic());
     match mode.as_str() {
         "dfs" => {
             set_sched_hook(Some(hook));
